@@ -110,8 +110,8 @@ theorem C19_expansion_keeps_line (tc : TestCase) : ∀ (k : Nat) (r : CRow) (row
     | some i =>
       simp only [expR, hx, List.mem_append] at h
       rcases h with h | h
-      · exact C19_expansion_keeps_line tc k { r with entries := r.entries.set i (.num 0) } row h
-      · exact C19_expansion_keeps_line tc k { r with entries := r.entries.set i (.num 1) } row h
+      · exact C19_expansion_keeps_line tc k { r with entries := r.entries.set i (.num 0), xcols := i :: r.xcols } row h
+      · exact C19_expansion_keeps_line tc k { r with entries := r.entries.set i (.num 1), xcols := i :: r.xcols } row h
 
 /-- **Every iteration of a loop yields the row with the line recorded in the program**: the
 statement iterator copies `line` from the statement, `get_row` and `into_data_row` pass it on. -/
